@@ -164,9 +164,75 @@ def translate_convert(src):
             "def convert_mp4_error (err : WErr) (frame_index : Nat) : Reply :=\n  match err with\n" + "\n".join(lines) + "\n")
 
 
+def f64expr(e):
+    """the two clock increments: `x as f64 / 1000.0` and `x as f64 / y as f64`"""
+    m = re.fullmatch(r"(\w+)\s+as\s+f64\s*/\s*(\d+)\.0", e.strip())
+    if m:
+        return "F64.div (F64.ofNat %s) (F64.ofNat %s)" % (m.group(1), m.group(2))
+    m = re.fullmatch(r"(\w+)\s+as\s+f64\s*/\s*(\w+)\s+as\s+f64", e.strip())
+    if m:
+        return "F64.div (F64.ofNat %s) (F64.ofNat %s)" % (m.group(1), m.group(2))
+    raise Untranslatable("f64 expression: " + e)
+
+
+CLOCK = {"current_video_pts": "curV", "current_audio_pts": "curA"}
+
+
+def translate_encode(src, name, param):
+    """`encode_video` / `encode_audio`: read the clock, (detect the key frame,) call the write method, and on success
+    advance the clock.  `self.write_x(..)?` = return the error reply with the state the call left."""
+    sig, body = find_fn(src, name)
+    lines, env = [], {}
+    stmts = [x.strip().rstrip(";").strip() for x in split_statements(body)]
+    stmts = [x for x in stmts if x]
+    i = 0
+    while i < len(stmts):
+        st = stmts[i]
+        m = re.fullmatch(r"if\s+self\.audio_track\.is_none\(\)\s*\{\s*return\s+Err\(MuxerError::AudioNotConfigured\)\s*;?\s*\}", st, re.S)
+        if m:
+            lines.append("  if self.audioTrack.isNone then (self, .err .audioNotConfigured none) else"); i += 1; continue
+        m = re.fullmatch(r"let\s+sample_rate\s*=\s*self\.audio_track\.as_ref\(\)\.unwrap\(\)\.sample_rate", st)
+        if m:
+            lines.append("  let sample_rate : Nat := (self.audioTrack.map (·.sampleRate)).getD 0"); i += 1; continue
+        m = re.fullmatch(r"let\s+pts\s*=\s*self\.(\w+)", st)
+        if m and m.group(1) in CLOCK:
+            lines.append("  let pts : F64 := self.%s" % CLOCK[m.group(1)]); i += 1; continue
+        if re.fullmatch(r"let\s+is_keyframe\s*=\s*self\.is_keyframe\(data\)", st):
+            lines.append("  let is_keyframe : Bool := self.isKeyframe data"); i += 1; continue
+        m = re.fullmatch(r"self\.(write_video|write_audio)\((.*)\)\?", st)
+        if m:
+            call = {"write_video": "self.writeVideo pts data is_keyframe", "write_audio": "self.writeAudio pts data"}[m.group(1)]
+            want = {"write_video": "pts, data, is_keyframe", "write_audio": "pts, data"}[m.group(1)]
+            if re.sub(r"\s+", " ", m.group(2).strip()) != want:
+                raise Untranslatable("arguments of " + m.group(1))
+            rest = stmts[i + 1:]
+            if len(rest) != 2 or rest[1] != "Ok(())":
+                raise Untranslatable("statements after the write call")
+            mm = re.fullmatch(r"self\.(\w+)\s*\+=\s*(.+)", rest[0], re.S)
+            if not mm or mm.group(1) not in CLOCK:
+                raise Untranslatable("clock update: " + rest[0][:50])
+            ck = CLOCK[mm.group(1)]
+            lines.append("  match %s with" % call)
+            lines.append("  | (self, .ok) => ({ self with %s := F64.add self.%s (%s) }, .ok)" % (ck, ck, f64expr(mm.group(2))))
+            lines.append("  | (self, r) => (self, r)")
+            break
+        raise Untranslatable("statement: " + st[:60])
+    else:
+        raise Untranslatable("no write call")
+    return ("/-- `Muxer::%s` (src/api.rs), translated statement by statement -/\n"
+            "def %s (self : Muxer) (data : Bytes) (%s : Nat) : Muxer × Reply :=\n%s\n" % (name, name, param, "\n".join(lines)))
+
+
 def generate():
     src = strip_comments(open(os.path.join(REPO, "src/api.rs")).read())
     out, failed = [], []
+    for nm, prm in (("encode_video", "duration_ms"), ("encode_audio", "samples")):
+        try:
+            out.append(translate_encode(src, nm, prm))
+        except Untranslatable as e:
+            msg = re.sub(r"\s+", " ", str(e))
+            failed.append((nm, msg))
+            out.append("-- UNTRANSLATABLE %s: %s\n" % (nm, msg))
     try:
         out.append(translate_convert(src))
     except Untranslatable as e:
@@ -198,7 +264,7 @@ def main():
             f.write(text)
     for n, e in failed:
         print("untranslatable %s: %s" % (n, e))
-    print("generated %d definitions (%d untranslatable)%s" % (len(TARGETS) + 1 - len(failed), len(failed), "" if old == text else " [file updated]"))
+    print("generated %d definitions (%d untranslatable)%s" % (len(TARGETS) + 3 - len(failed), len(failed), "" if old == text else " [file updated]"))
     return 1 if failed else 0
 
 
